@@ -67,6 +67,10 @@ From V Require Import Base.Result Model.Registry Model.Settings Model.RngWords M
   Model.Shape Model.ExampleRust Model.Conforms
   Model.WellFormed Proofs.ExampleRustProofs Proofs.ExampleRustTotal Proofs.ConformsProofs
   Proofs.ConformsExamples.
+(* [Require] without [Import]: the names of the pinned statements above keep their meaning; the
+   statements added at the end of this file use qualified names *)
+From V Require Model.Emit Checkers.Parse Model.Unparse Corr.RunTG Corr.RunC14
+  Proofs.ConformsTokens Proofs.ConformsTokensExamples.
 Import ListNotations.
 
 Theorem C14_total_partial :
@@ -284,3 +288,56 @@ Theorem C14_conforms_unique_paths :
       example_rust r s id ws = XOk ts -> conforms r s m id ts [].
 Proof. exact example_conforms_unique. Qed.
 Print Assumptions C14_conforms_unique_paths.
+
+(** ** C14_conforms, token level: the relation on the IR agrees with the INDEPENDENT reader.
+
+    [Corr.RunC14.conformsb r root pm paths id ts] is the token-level reader the harness runs on every
+    observed example ([prop_conforms]): it walks [ts] in lockstep with the registry [r], the PARSED
+    module [pm : option pmod] and the resolved paths [paths]; it shares no code with the model.
+    Here it is instantiated with the model's own outputs: [pm] = [Checkers.Parse.parse_module] of the
+    tokens [Model.Emit.emit_module] prints for the generated items (by [C02_emit_parses] this is
+    [Some (pmod_of_items s m)]), [paths] = [model_paths r s] = the model's [resolve_type_path] +
+    printing of every id by position (what [Corr.RunTG.corr_paths] compares with the observed paths).
+
+    [reader_scopeb r s m] (Proofs/ConformsTokens.v, decidable; EVERY clause is necessary, see the
+    witnesses [C14_reader_scope_clauses_needed]): the reader is stricter than the relation in corners
+    that the relation leaves open --
+    - the root ident is lexically an identifier;
+    - [Cow] directly inside [Cow] (through compact wrappers) does not occur: the reader's fuel is the
+      number of tokens + 1 and a [Cow] level consumes fuel without consuming a token;
+    - an enum is not called [Cow] (the resolver would collapse it to its parameter);
+    - the variant names of an enum are pairwise distinct (both sides take the FIRST variant of a name;
+      the relation lets any be chosen);
+    - the literal path of an entry without a generated item (prelude / substituted) is non-empty, does
+      not start with the tokens []] / [None], and does not name something under the root module;
+    - a path printed as the bare [Option] belongs to an entry whose registry path is [Option] (the
+      reader accepts [None] only there);
+    - no named field of a generated item is called [__ignore] and no positional field has a type whose
+      last segment is [PhantomData] (the reader recognises the marker slot by these).
+    Token condition: [~ In empty_str_lit ts] -- the relation allows the string literal [""] (all of
+    its zero characters are alphanumeric), the reader's [quoted] wants a character between the quotes. *)
+Theorem C14_conformsb_of_ir :
+  forall (r : registry) (s : settings) (teq : N -> N -> result bool) (m : items) (toks : tokens),
+    generate r s teq = Ok m -> skeleton_consistent r s ->
+    ConformsTokens.reader_scopeb r s m = true ->
+    Unparse.items_plain s m = true -> Emit.emit_module s m = Ok toks ->
+    forall (id : N) (ts : tokens),
+      conforms r s m id ts [] -> ~ In ConformsTokens.empty_str_lit ts ->
+      RunC14.conformsb r (s_root s) (Parse.parse_module toks) (ConformsTokens.model_paths r s) id ts = true.
+Proof. exact ConformsTokens.conformsb_of_ir. Qed.
+Print Assumptions C14_conformsb_of_ir.
+
+(** the same for the reader's fuelled core [conf], for every remainder [rest] that does not open a
+    group and every fuel above the number of tokens read, on the tree [pmod_of_items s m] *)
+Theorem C14_conf_of_ir :
+  forall (r : registry) (s : settings) (teq : N -> N -> result bool) (m : items),
+    generate r s teq = Ok m -> skeleton_consistent r s ->
+    ConformsTokens.reader_scopeb r s m = true ->
+    forall (id : N) (ts rest : tokens),
+      conforms r s m id ts rest -> Unparse.hd_is "(" rest = false ->
+      ~ In ConformsTokens.empty_str_lit ts ->
+      forall fuel : nat, (List.length ts + 1 <= fuel + List.length rest)%nat ->
+      RunC14.conf r (s_root s) (Some (Unparse.pmod_of_items s m)) (ConformsTokens.model_paths r s) fuel id ts
+      = Some rest.
+Proof. exact ConformsTokens.conf_of_conforms. Qed.
+Print Assumptions C14_conf_of_ir.
